@@ -1,1 +1,4 @@
+pub mod color;
+pub mod colornames;
 pub mod css;
+pub mod num;
